@@ -179,7 +179,7 @@ class Program:
             el = np.asarray(next(iter(x.blocks.values()))).reshape(-1)[0]
             if np.isfinite(el) and 1e-100 < abs(el) < 1e100:
                 names += ["div_scaled_self", "div_scaled_self"]
-        names += ["tensordot_scalar"]
+        names += ["tensordot_scalar", "copy_copy", "deepcopy", "pickle_roundtrip"]
         if nd in (1, 2) and sym in ("U1", "U1U1", "Z4") and x.indices[0].subinfo is None and not ferm:
             names += ["solve_charged"]
         if nd >= 1:
@@ -320,6 +320,19 @@ class Program:
         if name == "sub_scaled_self":
             sc = rng.choice([2.0, -0.5, 4.0])
             return name, [x], (lambda a: a - (a * sc)), I()
+        if name == "copy_copy":
+            import copy as _copy
+
+            # (a shallow copy shares its blocks with the original by the definition of copy.copy)
+            return name, [x], (lambda a: _copy.copy(a)), I(shares_by_design=True)
+        if name == "deepcopy":
+            import copy as _copy
+
+            return name, [x], (lambda a: _copy.deepcopy(a)), I()
+        if name == "pickle_roundtrip":
+            import pickle as _pickle
+
+            return name, [x], (lambda a: _pickle.loads(_pickle.dumps(a))), I()
         if name == "tensordot_scalar":
             sc = rng.choice([2.0, -0.5, 3])
             return name, [x], (lambda a: sr.tensordot(a, sc, axes=0)), I()
